@@ -12,7 +12,8 @@
 _UUID_CHAR = "[0-9a-fA-F-]"
 # TODO(efried): Use this stricter pattern, and replace string/uuid with it:
 # UUID_PATTERN = "^%s{8}-%s{4}-%s{4}-%s{4}-%s{12}$" % ((_UUID_CHAR,) * 5)
-UUID_PATTERN = "^%s{36}$" % _UUID_CHAR
+# NOTE: \\Z, not $: $ would also match before a trailing newline.
+UUID_PATTERN = r"^%s{36}\Z" % _UUID_CHAR
 
 _RC_TRAIT_CHAR = "[A-Z0-9_]"
 # NOTE: \\Z, not $: $ would also match before a trailing newline.
